@@ -4,6 +4,7 @@ CONSTANTS
   RSizes = {11, 15, 40}
   TsigLens = {74, 80}
   Limits = {0, 12, 30, 57, 100, 120, 140, 200}
+  Bufs = {60, 100, 140}
   Variant = "clear_returns_reserved"
 SPECIFICATION Spec
 INVARIANTS Ordered ReservedKept FinishedFits ReservedUsedExactly
